@@ -15,7 +15,7 @@ RULE = ('configs: generated mapping files (1..6 custom protobuf fields varint/st
         '(FNV-1 32 over the %v text of the key fields: columns of every kind, custom fields); GetBytes: '
         'all 1-byte buffers exhaustively, 2- and 3-byte buffers over a bit basis plus random ones, x offsets 0..24 x lengths 0..24 x shift; doc examples: every ```yaml mapping file shown in docs/mapping.md and '
         'cmd/goflow2/mapping.yaml (re-read from the repository on every run, translated to the abstract configuration by yaml_to_toks) '
-        'must load and behave like the model compiled from its own content. '
+        'must load and behave like the model compiled from its own content; edge files: 20 hand-written mapping files at the edges of what the loader accepts (unknown renderers / fields / keys, unmappable custom types, Go names, virtual fields, duplicate indices ...): accepted or rejected as the model does. '
         'non-trivial = a message carrying a custom field or produced under a matching mapping; distinct by input')
 TRUSTED = ['Coq 8.16.1 kernel (coqc), vm_compute in the finite GetBytes theorem', 'extraction + ocaml/main.ml glue',
            'Go harness harness/cfg.go, fmt.go; bin/engine.py; the Python YAML printer of this module',
@@ -126,6 +126,64 @@ def gen_cfg(rng):
             toks += ['layer', key, '#%x' % int(encap), '#%x' % off, '#%x' % ln, d, '#%x' % int(little)]
     toks.append('end')
     return '\n'.join(y) + '\n', ftoks + toks
+
+
+def small_cfg(fields, customs, render=None, rename=None, keys=None, nfmaps=None):
+    """a hand-written mapping file: (yaml text, tokens)"""
+    y = ['formatter:']
+    if fields:
+        y += ['  fields:'] + ['    - %s' % f for f in fields]
+    if keys:
+        y += ['  key:'] + ['    - %s' % k for k in keys]
+    if rename:
+        y += ['  rename:'] + ['    %s: "%s"' % (a, b) for a, b in rename.items()]
+    if render:
+        y += ['  render:'] + ['    %s: %s' % (a, b) for a, b in render.items()]
+    toks = fmt_tokens(fields, rename, render, keys) + ['cfg']
+    if customs:
+        y += ['  protobuf:']
+        for n, i, t, a in customs:
+            y += ['    - name: %s' % n, '      index: %d' % i, '      type: %s' % t, '      array: %s' % ('true' if a else 'false')]
+            toks += ['custom', n, '#%x' % i, '#%x' % ({'varint': 0, 'string': 1, 'bytes': 1}.get(t, 2)), '#%x' % int(a)]
+    for sect, ver in (('ipfix', 10), ('netflowv9', 9)):
+        if nfmaps:
+            y += ['%s:' % sect, '  mapping:']
+            for fid, dest in nfmaps:
+                y += ['    - field: %d' % fid, '      destination: %s' % dest]
+                toks += ['nf', '#%x' % ver, '#0', '#0', '#%x' % fid, dest, '#0']
+    toks.append('end')
+    return '\n'.join(y) + '\n', toks
+
+
+def edge_configs():
+    """mapping files at the edges of what the loader accepts: unknown / unregistered renderers, unknown fields and keys,
+    a custom type the loader cannot map (with and without a mapping that uses it), Go names in the field list, virtual
+    fields, renderer keys by Go name, empty renames, two custom fields with one index, no field list, a renderer for
+    a custom field that is not listed, a field listed twice, index 0, one name declared as array and as scalar.
+    The loader must accept or reject each as the model does, and accepted ones must behave like it."""
+    C = [('cust0', 1001, 'varint', False)]
+    return {
+        'plain': small_cfg(['bytes', 'cust0'], C, nfmaps=[(1, 'cust0')]),
+        'render-network': small_cfg(['bytes', 'cust0'], C, render={'bytes': 'network'}),
+        'render-foo': small_cfg(['bytes'], C, render={'bytes': 'foo'}),
+        'render-type': small_cfg(['bytes'], C, render={'bytes': 'type'}),
+        'field-unknown': small_cfg(['bytes', 'nonexistent'], C),
+        'key-unknown': small_cfg(['bytes'], C, keys=['nonexistent']),
+        'key-custom': small_cfg(['bytes', 'cust0'], C, keys=['cust0'], nfmaps=[(2, 'cust0')]),
+        'type-bad-mapped': small_cfg(['bytes', 'c1'], [('c1', 1002, 'int', False)], nfmaps=[(1, 'c1')]),
+        'type-bad-unused': small_cfg(['bytes', 'c1'], [('c1', 1002, 'int', False)]),
+        'go-name-field': small_cfg(['SrcAddr', 'bytes'], C),
+        'go-name-field2': small_cfg(['Bytes'], C),
+        'virtual': small_cfg(['icmp_name', 'proto', 'icmp_type'], C),
+        'render-go-key': small_cfg(['src_addr'], C, render={'SrcAddr': 'none'}),
+        'empty-rename': small_cfg(['bytes', 'packets'], C, rename={'bytes': ''}),
+        'dup-index': small_cfg(['a', 'b'], [('a', 1001, 'varint', False), ('b', 1001, 'varint', False)], nfmaps=[(1, 'a'), (2, 'b')]),
+        'no-fields': small_cfg([], C, nfmaps=[(1, 'cust0')]),
+        'render-custom-unlisted': small_cfg(['bytes'], C, render={'cust0': 'ip'}, nfmaps=[(1, 'cust0')]),
+        'field-twice': small_cfg(['bytes', 'bytes', 'cust0', 'cust0'], C, nfmaps=[(1, 'cust0')]),
+        'index-zero': small_cfg(['bytes', 'z'], [('z', 0, 'varint', False)], nfmaps=[(1, 'z')]),
+        'array-scalar-same-name': small_cfg(['x'], [('x', 1001, 'varint', True), ('x', 1002, 'varint', False)], nfmaps=[(1, 'x')]),
+    }
 
 
 def yaml_to_toks(doc):
@@ -270,6 +328,23 @@ def run(chk):
                        what='a mapping file shown in the documentation is rejected by the loader or does not do what the reference compiled from the same file does'), {})
     if dl:
         chk.samples.append(dict(stream='doc-examples', files=[n for n, _, _ in exs], impl=di[0][:300]))
+    # mapping files at the edges of what the loader accepts
+    el, en = [], []
+    for name, (y, toks) in edge_configs().items():
+        for h in rng.sample(hists, min(len(hists), dict(quick=4, thorough=30)[chk.tier])):
+            el.append('pipec flow yamlj:%s %s %s' % (y.encode().hex(), ' '.join(toks), h))
+            en.append(name)
+    ei = impl_run(chk.harness, el, timeout=120.0)
+    em = model_run(GEN, el)
+    chk.evals += len(el)
+    chk.count('edge mapping files x histories', len(el))
+    chk.count('edge mapping files the loader rejects (as the model does)', sum(1 for o, m in zip(ei, em) if o == m == 'cfgerr'))
+    for a, o, m, name in zip(el, ei, em, en):
+        if nontrivial(a, m):
+            chk.nontrivial.add(hashlib.sha1(a.encode()).digest()[:8])
+        if mask_oom(o, m) != m:
+            chk.record('scopeA-edge', dict(concrete=True, input=a[:60000], impl=mask_oom(o, m)[:3000], expected=m[:3000], config=name,
+                       what='a mapping file at the edge of what the loader accepts is accepted / rejected / applied differently from the reference'), {})
     # GetBytes
     gb = getbytes_lines(rng)
     bad = run_scope_b(chk, me, gb, 'getbytes', {}, timeout=120.0)
